@@ -555,3 +555,39 @@ Proof.
   - exfalso. unfold strip_lua in Hs. rewrite strip_stats_cuts, Hr in Hs. discriminate Hs.
 Qed.
 Print Assumptions stripped_pkg_full.
+
+(* the first hypothesis follows from C08_complete: a file that has a derivation in the reference grammar (within the
+   exclusions of that theorem) is consumed entirely *)
+From PV Require Import Model.AstWriter Proofs.ParserComplete2 Proofs.ParserComplete6.
+Lemma fully_parsed_of_derivation ls q g :
+  from_lines ls = Ok q ->
+  derives (map token_of_tok (l_toks q)) g = true -> line_scoped (map token_of_tok (l_toks q)) g = true ->
+  in_frag g = true -> tokdata_ok (map token_of_tok (l_toks q)) g = true ->
+  fully_parsed q = true.
+Proof.
+  intros Hq Hd Hl Hf Ht. destruct (from_lines_parse _ _ Hq) as (e & Hp).
+  destruct (parse_complete _ g Hd Hl Hf Ht) as (root & e' & Hp' & Hc & _). rewrite Hp in Hp'. injection Hp' as <- <-.
+  pose proof (lua_parse_spec (map token_of_tok (l_toks q))) as Sp. rewrite Hp in Sp. destruct Sp as (_ & _ & _ & (fs & Eroot)).
+  unfold fully_parsed. rewrite Eroot. exact Hc.
+Qed.
+Print Assumptions fully_parsed_of_derivation.
+
+(* without shortif_clean the second hypothesis is false: a game-loop definition in the body of a one-line if is not a
+   statement of the root chunk - build.py (rightly) keeps it, spec_strip removes it *)
+Definition shortif_witness : list Z := "x=1
+if (x) function _init() y=2 end
+z=3
+"%bs.
+Lemma spec_strip_shortif_refuted :
+  match spec_lex shortif_witness, from_lines (file_lines shortif_witness) with
+  | Some ss0, Ok q =>
+    match strip_ranges (rev' (root_stats (l_root q))) (l_toks q) with
+    | Ok ranges =>
+      ranges = [] /\ fully_parsed q = true /\ shortif_clean (l_root q) = false /\
+      length (nontriv (drops (map unpos ss0) ranges)) = 18%nat /\
+      length (spec_strip (nontriv (map unpos ss0))) = 10%nat
+    | Err _ => False
+    end
+  | _, _ => False
+  end.
+Proof. vm_compute. repeat split; reflexivity. Qed.
